@@ -173,6 +173,10 @@ def main(argv=None):
         os.makedirs(os.path.join(HERE, 'evidence'), exist_ok=True)
         with open(os.path.join(HERE, 'evidence', f'{pid}.json'), 'w') as f:
             json.dump(ev, f, indent=1, default=str)
+        if not a.only:      # a copy per tier, so that the last thorough run stays on record when the quick check runs again
+            os.makedirs(os.path.join(HERE, 'evidence', 'tiers'), exist_ok=True)
+            with open(os.path.join(HERE, 'evidence', 'tiers', f'{pid}-{a.tier}.json'), 'w') as f:
+                json.dump(ev, f, indent=1, default=str)
     print(f'{pid} {a.tier}: units={len(units)} paths={agg["paths"]} reachable={agg["reachable"]} obligations={agg["obligations"]} '
           f'discharged={agg["discharged"]} inconclusive={len(inconclusive)} cex={len(violations)} known={len(known_hit)} '
           f'unreproduced={len(unreproduced)} harness_errors={len(harness_errors)} solver_s={agg["solver_s"]:.1f} wall_s={wall:.1f}')
